@@ -79,6 +79,8 @@ structure St where
   zombiePrunes : Nat := 0
   zombiePruned : Nat := 0
   directAdds : Nat := 0
+  horizonQueries : Nat := 0
+  horizonStale : Nat := 0
   resKinds : List (String × Nat) := []
 
 def mismatch (s : St) (detail : String) : IO St := do
@@ -632,6 +634,23 @@ def step (s : St) (line : String) : IO St := do
     if !after.hasH then s ← mismatch s "coh line without cache answers"
     s ← runMonitor s "coh" none 0 [] [] [] after
     return remember s after
+  | "hz" :: rest =>
+    -- observation only (not a clause of C20): what ChanUpdatesInHorizon (channel cache) answers
+    -- after an update was applied while an earlier horizon query was being consumed
+    let after := parseDump ws
+    let mut s := s
+    s ← compareGraph s s.ms.g after
+    s ← runMonitor s "hz" none 0 [] [] [] after
+    s := { s with horizonQueries := s.horizonQueries + 1 }
+    match (sv rest "after").splitOn ":" with
+    | [sc, t0, t1] =>
+      let d := entOf after.chans after.pols after.zombies (natD sc)
+      if d.t0 != natD t0 || d.t1 != natD t1 then
+        if s.horizonStale == 0 then
+          IO.println s!"SAMPLE case={s.caseId} observation (outside C20's statement): ChanUpdatesInHorizon answers ts0={t0} ts1={t1} for channel {sc} while the durable policies have ts0={d.t0} ts1={d.t1} (channel cache filled after the lock was released)"
+        s := { s with horizonStale := s.horizonStale + 1 }
+    | _ => s ← mismatch s "hz: unparsable answer"
+    return remember s after
   | "del" :: rest =>
     let scid := n rest "scid"
     let after := parseDump ws
@@ -783,6 +802,8 @@ def main : IO Unit := do
   IO.println s!"STAT zombie_prune_ticks={s.zombiePrunes}"
   IO.println s!"STAT zombie_pruned_channels={s.zombiePruned}"
   IO.println s!"STAT direct_edge_adds={s.directAdds}"
+  IO.println s!"STAT horizon_queries={s.horizonQueries}"
+  IO.println s!"STAT horizon_stale_answers_observed={s.horizonStale}"
   for (k, v) in s.resKinds do
     IO.println s!"STAT res_{k}={v}"
   IO.println s!"STAT mismatches={s.mismatches}"
